@@ -18,3 +18,6 @@ open SamVerif.Hint
 #print axioms synth_flag_order_independent
 #print axioms synth_flag_exact_code
 #print axioms reset_no_restore_counterexample
+#print axioms validators_agree
+#print axioms validators_agree_code
+#print axioms prefix_map_counterexample
